@@ -1,4 +1,6 @@
 import ZipVerif.Lemmas.Align
+import ZipVerif.Lemmas.AlignCentral
+import ZipVerif.Lemmas.WriterWedge
 /-
 C17 — Aligned entries are aligned; extra data lands where requested.
 Property theorems only; helper lemmas are in `Lemmas/Align.lean`, the model in `Model/Align.lean`,
@@ -474,8 +476,9 @@ theorem extra_placement_shared {hs : UInt64} {n : Nat} {lf : Bool} {lo ce : Byte
 
 /-- **Split extra data** (`…; write local…; end_local_start_central_extra_data; write central…;
 end_extra_data`; `centralOnly` writes no local part): on success the local part is *only* in the
-local header and the central part *only* in the central record (which is what the reader's
-`extra_data()` returns), both verbatim; the data start and the local extra-length field depend
+local header and the central part *only* in `file.extra_field`, the user's share of the central record
+(section 5 says what the record and the reader's `extra_data()` hold: the writer's own ZIP64 record, when
+the entry needs one, followed by exactly these bytes), both verbatim; the data start and the local extra-length field depend
 on the local part alone; both parts were well-formed. -/
 theorem extra_placement_split {hs : UInt64} {n : Nat} {lf : Bool} {mode : ExtraMode} {lo ce : Bytes}
     {st : EntrySt} (hm : mode ≠ .shared) (h : extraPlacement hs n lf mode lo ce = .ok st) :
@@ -611,5 +614,341 @@ example : extraPlacement 0 1 false .centralOnly [0x7a, 0x61, 0x01, 0x00, 0xff] [
     .ok ⟨0, false, 31, [0xfe, 0xca, 0x00, 0x00], false, false, false, [], 0⟩ := by decide
 example : extraPlacement 0 1 false .split [0x7a, 0x61, 0x00, 0x00] [0x01, 0x00, 0x00, 0x00] =
     .err (.io .other) := by decide
+
+/-! ## 5. The central record at `finish`, and what the reader's `extra_data()` returns
+
+`ZipFile::extra_data()` is the central record's WHOLE extra field.  `write_central_directory_header`
+puts the ZIP64 record it generates itself in front of `file.extra_field`, so for an entry whose header
+offset (or a size) is ≥ 0xFFFFFFFF the reader returns that record followed by the caller's central part —
+not the central part alone (red-team finding A5: `align.start off=4294967296 …` returns
+`cx=010008000000000001000000`).  The supplied bytes are a verbatim suffix in every case and the whole
+answer exactly when no ZIP64 record is needed. -/
+
+/-- The ZIP64 record is absent exactly when both sizes and the header offset are below the marker. -/
+theorem central_zip64_nil_iff (st : EntrySt) (us cs : UInt64) :
+    st.centralZip64 us cs = [] ↔
+      ¬ (us ≥ Model.ZIP64_BYTES_THR ∨ cs ≥ Model.ZIP64_BYTES_THR ∨ st.headerStart ≥ Model.ZIP64_BYTES_THR) := by
+  unfold EntrySt.centralZip64 Model.centralZip64Bytes
+  by_cases hu : us ≥ Model.ZIP64_BYTES_THR <;>
+  by_cases hc : cs ≥ Model.ZIP64_BYTES_THR <;>
+  by_cases hh : st.headerStart ≥ Model.ZIP64_BYTES_THR <;>
+  simp [hu, hc, hh, le16]
+
+/-- For the entries of the `align` stream (sizes of a few bytes) the record is the header offset alone:
+`01 00 08 00` and the 8-byte offset. -/
+theorem central_zip64_offset_only (st : EntrySt) (us cs : UInt64)
+    (hu : ¬ us ≥ Model.ZIP64_BYTES_THR) (hc : ¬ cs ≥ Model.ZIP64_BYTES_THR)
+    (hh : st.headerStart ≥ Model.ZIP64_BYTES_THR) :
+    st.centralZip64 us cs = le16 0x0001 ++ le16 8 ++ le64 st.headerStart := by
+  unfold EntrySt.centralZip64 Model.centralZip64Bytes
+  simp [hu, hc, hh]
+
+theorem central_zip64_length_le (st : EntrySt) (us cs : UInt64) : (st.centralZip64 us cs).length ≤ 28 :=
+  Model.centralZip64Bytes_length _
+
+/-- `finish` fails on the central record exactly when the ZIP64 record and `extra_field` together exceed
+the 16-bit length field — with `InvalidArchive`, before anything is written. -/
+theorem central_extra_all_ok_iff (st : EntrySt) (us cs : UInt64) :
+    (∃ x, st.centralExtraAll us cs = .ok x) ↔
+      (st.centralZip64 us cs).length + st.extraField.length ≤ 65535 := by
+  unfold EntrySt.centralExtraAll
+  dsimp only
+  by_cases h : (st.centralZip64 us cs).length + st.extraField.length > 65535
+  · rw [if_pos h]
+    constructor
+    · rintro ⟨_, hx⟩; cases hx
+    · intro hle; omega
+  · rw [if_neg h]
+    constructor
+    · intro _; omega
+    · intro _; exact ⟨_, rfl⟩
+
+theorem central_extra_all_err {st : EntrySt} {us cs : UInt64}
+    (h : (st.centralZip64 us cs).length + st.extraField.length > 65535) :
+    st.centralExtraAll us cs = .err .invalidArchive := by
+  unfold EntrySt.centralExtraAll
+  dsimp only
+  rw [if_pos h]
+
+/-- **What the central record's extra field holds**: the regenerated ZIP64 record (present iff needed:
+`central_zip64_nil_iff`), then the bytes of `extra_field` — the supplied central part is a verbatim
+suffix, and the whole field when no ZIP64 record is needed. -/
+theorem central_extra_all_eq {st : EntrySt} {us cs : UInt64} {x : Bytes}
+    (h : st.centralExtraAll us cs = .ok x) :
+    x = st.centralZip64 us cs ++ st.extraField ∧ st.extraField <:+ x ∧
+    (¬ (us ≥ Model.ZIP64_BYTES_THR ∨ cs ≥ Model.ZIP64_BYTES_THR ∨ st.headerStart ≥ Model.ZIP64_BYTES_THR) →
+      x = st.extraField) := by
+  unfold EntrySt.centralExtraAll at h
+  dsimp only at h
+  split at h
+  · cases h
+  · injection h with h
+    subst h
+    refine ⟨rfl, List.suffix_append _ _, fun hz => ?_⟩
+    rw [(central_zip64_nil_iff st us cs).mpr hz, List.nil_append]
+
+/-- What the state after a successful extra-data sequence holds for `finish`: the header offset it was
+started at and the central part (`lo` for the shared variant). -/
+theorem extra_placement_central_part {hs : UInt64} {n : Nat} {lf : Bool} {mode : ExtraMode} {lo ce : Bytes}
+    {st : EntrySt} (h : extraPlacement hs n lf mode lo ce = .ok st) :
+    st.headerStart = hs ∧ st.largeFile = lf ∧ st.extraField = centralPart mode lo ce ∧
+    validateExtraData lf st.extraField = .ok () := by
+  rw [extraPlacement_eq] at h
+  cases hv : validateExtraData lf (localPart mode lo) with
+  | err e => rw [hv] at h; cases h
+  | panic s => rw [hv] at h; cases h
+  | ok u =>
+    rw [hv] at h
+    dsimp only at h
+    split at h
+    · split at h
+      · split at h
+        · rename_i hm
+          injection h with h
+          subst h
+          subst hm
+          exact ⟨rfl, rfl, rfl, hv⟩
+        · rename_i hm
+          cases hc : validateExtraData lf ce with
+          | err e => rw [hc] at h; cases h
+          | panic s => rw [hc] at h; cases h
+          | ok u' =>
+            rw [hc] at h
+            injection h with h
+            subst h
+            refine ⟨rfl, rfl, ?_, hc⟩
+            show ce = centralPart mode lo ce
+            unfold centralPart; rw [if_neg hm]
+      · cases h
+    · cases h
+
+/-- **The central part as the central record carries it**, for every variant of the call sequence: if
+`finish` can write the record at all, its extra field is the ZIP64 record of the entry (exactly when
+needed) followed by the supplied central part verbatim. -/
+theorem extra_placement_central {hs : UInt64} {n : Nat} {lf : Bool} {mode : ExtraMode} {lo ce : Bytes}
+    {st : EntrySt} (h : extraPlacement hs n lf mode lo ce = .ok st) {us cs : UInt64} {x : Bytes}
+    (hx : st.centralExtraAll us cs = .ok x) :
+    x = st.centralZip64 us cs ++ centralPart mode lo ce ∧ centralPart mode lo ce <:+ x ∧
+    (¬ (us ≥ Model.ZIP64_BYTES_THR ∨ cs ≥ Model.ZIP64_BYTES_THR ∨ hs ≥ Model.ZIP64_BYTES_THR) →
+      x = centralPart mode lo ce) := by
+  obtain ⟨h1, _, h3, _⟩ := extra_placement_central_part h
+  have := central_extra_all_eq hx
+  rw [h3, h1] at this
+  exact this
+
+/-- **The reader returns exactly these bytes.**  For the finished record `f` of an entry whose extra
+field passed `validate_extra_data`, `write_central_directory_header` succeeds whenever the ZIP64 record
+and the extra field fit 65535 bytes, and `central_header_to_zip_file` (the reader model of
+`Model/Records.lean`), run on the bytes written — at any position `p` of any stream that continues with
+them — returns a record whose `extra_field`, i.e. `ZipFile::extra_data()`, is
+`centralZip64Bytes f ++ f.extraField`, and whose header offset is the writer's. -/
+theorem reader_returns_central_extra (f : Model.FileData) (dp : UInt16) (hdp : f.time.datepart = some dp)
+    (hn : f.fileName.length ≤ 65535) (hv : validateExtraData f.largeFile f.extraField = .ok ())
+    (hlen : (Model.centralZip64Bytes f).length + f.extraField.length ≤ 65535)
+    (hdd : f.usingDataDescriptor = false) (hm : f.method.toU16 ≠ 99) (p : Nat) :
+    ∃ cs g, Model.centralHeaderChunks f = .ok cs ∧
+      Model.Parses (Model.centralHeader 0) p (Model.ser cs) g ∧
+      g.extraField = Model.centralZip64Bytes f ++ f.extraField ∧ g.headerStart = f.headerStart :=
+  WL.reader_on_written_central f dp hdp hn (WL.align_validate_extraOk hv) hlen hdd hm p
+
+/-- The same, from a successful extra-data call sequence: any record `f` the writer finishes for that
+entry (same header offset, `large_file` flag and `extra_field` as the state the calls left) reads back
+with `extra_data()` = its ZIP64 record ++ the supplied central part. -/
+theorem extra_placement_reader {hs : UInt64} {n : Nat} {lf : Bool} {mode : ExtraMode} {lo ce : Bytes}
+    {st : EntrySt} (h : extraPlacement hs n lf mode lo ce = .ok st)
+    (f : Model.FileData) (hfx : f.extraField = st.extraField) (hfl : f.largeFile = lf)
+    (dp : UInt16) (hdp : f.time.datepart = some dp) (hn : f.fileName.length ≤ 65535)
+    (hlen : (Model.centralZip64Bytes f).length + f.extraField.length ≤ 65535)
+    (hdd : f.usingDataDescriptor = false) (hm : f.method.toU16 ≠ 99) (p : Nat) :
+    ∃ cs g, Model.centralHeaderChunks f = .ok cs ∧
+      Model.Parses (Model.centralHeader 0) p (Model.ser cs) g ∧
+      g.extraField = Model.centralZip64Bytes f ++ centralPart mode lo ce := by
+  obtain ⟨_, _, h3, h4⟩ := extra_placement_central_part h
+  obtain ⟨cs, g, a, b, c, _⟩ := reader_returns_central_extra f dp hdp hn (by rw [hfl, hfx]; exact h4) hlen hdd hm p
+  exact ⟨cs, g, a, b, by rw [c, hfx, h3]⟩
+
+-- the A5 witness: header at 2^32, central part `fe ca 00 00`: the reader returns the 12-byte ZIP64 record first
+example : (⟨4294967296, false, 4294967327, [0xfe, 0xca, 0, 0], false, false, false, [], 0⟩ : EntrySt).centralExtraAll 26 26 =
+    .ok [0x01, 0x00, 0x08, 0x00, 0, 0, 0, 0, 1, 0, 0, 0, 0xfe, 0xca, 0, 0] := by decide
+-- one byte below the marker: the central part alone
+example : (⟨4294967294, false, 4294967325, [0xfe, 0xca, 0, 0], false, false, false, [], 0⟩ : EntrySt).centralExtraAll 26 26 =
+    .ok [0xfe, 0xca, 0, 0] := by decide
+-- `reader_returns_central_extra` instantiated: a record at offset 2^32 with one user record
+/-- A finished record at header offset 2^32 with the user record `fe ca 00 00` (1980-01-01). -/
+def witnessRecord : Model.FileData :=
+  { (default : Model.FileData) with
+    time := { year := 1980, month := 1, day := 1, hour := 0, minute := 0, second := 0 }
+    headerStart := 4294967296
+    extraField := [0xfe, 0xca, 0, 0] }
+
+example : ∃ cs g, Model.centralHeaderChunks witnessRecord = .ok cs ∧
+    Model.Parses (Model.centralHeader 0) 0 (Model.ser cs) g ∧
+    g.extraField = [0x01, 0x00, 0x08, 0x00, 0, 0, 0, 0, 1, 0, 0, 0, 0xfe, 0xca, 0, 0] := by
+  obtain ⟨cs, g, a, b, c, _⟩ := reader_returns_central_extra witnessRecord
+    33 (by decide) (by decide) (by decide) (by decide) (by decide) (by decide) 0
+  exact ⟨cs, g, a, b, by rw [c]; decide⟩
+
+/-! ## 6. Accepted extra data can make the archive unfinishable (known finding K-G)
+
+Full statement (FALSE): "extra data accepted by every extra-data call is stored" —
+`extraPlacement hs n lf mode lo ce = .ok st → ∃ x, st.centralExtraAll us cs = .ok x`.
+`validate_extra_data` reserves room only for the 20-byte LOCAL ZIP64 record of `large_file` entries; the
+central record's own ZIP64 record (12..28 bytes) is not accounted for — and cannot be exactly, since the
+sizes are not known when the data is validated.  What holds is the exact bound (`finish_central_ok_iff`),
+the partial statements below, and a kernel-checked counterexample. -/
+
+/-- **Exact bound**: `write_central_directory_header` succeeds iff the ZIP64 record plus the extra field
+fit the 16-bit length (for every constructible timestamp); otherwise it fails with `InvalidArchive` — and
+`finish` with it, on every later call as well (the entry stays in `files`). -/
+theorem finish_central_ok_iff (f : Model.FileData) (dp : UInt16) (hdp : f.time.datepart = some dp) :
+    (∃ cs, Model.centralHeaderChunks f = .ok cs) ↔
+      (Model.centralZip64Bytes f).length + f.extraField.length ≤ 65535 := by
+  constructor
+  · rintro ⟨cs, h⟩
+    apply Classical.byContradiction
+    intro hgt
+    have : Model.centralHeaderChunks f = .err .invalidArchive := by
+      unfold Model.centralHeaderChunks
+      simp only [show (Model.centralZip64Bytes f).length + f.extraField.length > 65535 by omega, if_true]
+    rw [this] at h; cases h
+  · intro hle
+    exact ⟨_, WL.centralHeaderChunks_ok f dp hdp hle⟩
+
+theorem finish_central_err (f : Model.FileData)
+    (h : (Model.centralZip64Bytes f).length + f.extraField.length > 65535) :
+    Model.centralHeaderChunks f = .err .invalidArchive := by
+  unfold Model.centralHeaderChunks
+  simp only [h, if_true]
+
+/-- **Partial (1)**: accepted extra data is finishable whenever the entry needs no ZIP64 record (sizes and
+header offset below 0xFFFFFFFF): the central record carries exactly the central part. -/
+theorem extra_placement_finishable_partial {hs : UInt64} {n : Nat} {lf : Bool} {mode : ExtraMode}
+    {lo ce : Bytes} {st : EntrySt} (h : extraPlacement hs n lf mode lo ce = .ok st) (us cs : UInt64)
+    (hsmall : ¬ (us ≥ Model.ZIP64_BYTES_THR ∨ cs ≥ Model.ZIP64_BYTES_THR ∨ hs ≥ Model.ZIP64_BYTES_THR)) :
+    st.centralExtraAll us cs = .ok (centralPart mode lo ce) := by
+  obtain ⟨h1, _, h3, h4⟩ := extra_placement_central_part h
+  have hz : st.centralZip64 us cs = [] := (central_zip64_nil_iff st us cs).mpr (by rw [h1]; exact hsmall)
+  have hl := validate_ok_len h4
+  unfold EntrySt.centralExtraAll
+  dsimp only
+  rw [hz, List.nil_append, List.length_nil, if_neg (by omega), h3]
+
+/-- **Partial (2)**: … and in every case when the central part is at most 65507 bytes long. -/
+theorem extra_placement_finishable_short {hs : UInt64} {n : Nat} {lf : Bool} {mode : ExtraMode}
+    {lo ce : Bytes} {st : EntrySt} (h : extraPlacement hs n lf mode lo ce = .ok st) (us cs : UInt64)
+    (hshort : (centralPart mode lo ce).length ≤ 65507) :
+    ∃ x, st.centralExtraAll us cs = .ok x := by
+  obtain ⟨_, _, h3, _⟩ := extra_placement_central_part h
+  have := central_zip64_length_le st us cs
+  exact (central_extra_all_ok_iff st us cs).mpr (by rw [h3]; omega)
+
+/-- One record with ID 0xcafe and `k` zero bytes of data. -/
+def bigRecord (k : Nat) : Bytes := Record.encode ⟨0xcafe, List.replicate k 0⟩
+
+theorem bigRecord_length (k : Nat) : (bigRecord k).length = 4 + k := by
+  simp [bigRecord, Record.encode, u16le]; omega
+
+theorem bigRecord_valid (k : Nat) (hk : 4 + k ≤ 65535) : validateExtraData false (bigRecord k) = .ok () := by
+  rw [validate_extra_iff]
+  refine ⟨by rw [bigRecord_length]; exact hk, [⟨0xcafe, List.replicate k 0⟩], ?_, ?_⟩
+  · intro r hr
+    rw [List.mem_singleton] at hr
+    subst hr
+    refine ⟨⟨?_, ?_⟩, ?_⟩
+    · show (0xcafe : Nat) < 65536
+      decide
+    · show (List.replicate k (0 : UInt8)).length < 65536
+      rw [List.length_replicate]; omega
+    · show (0xcafe : Nat) ≠ 0x0001 ∧ 31 < (0xcafe : Nat) ∧ (0xcafe : Nat) ∉ reservedIds
+      decide
+  · simp [encodeAll, bigRecord]
+
+/-- **Counterexample to the full statement** (the K-G witness of the `align` stream): a non-large entry
+whose header lies at offset 2^32, central-only extra data of 65524 bytes.  Every extra-data call accepts
+it; the central record needs 12 + 65524 = 65536 bytes of extra field; `finish` fails with
+`InvalidArchive`.  With 65523 bytes it succeeds. -/
+theorem accepted_extra_unfinishable :
+    (∃ st, extraPlacement 4294967296 1 false .centralOnly [] (bigRecord 65520) = .ok st ∧
+        st.centralExtraAll 26 26 = .err .invalidArchive) ∧
+    (∃ st x, extraPlacement 4294967296 1 false .centralOnly [] (bigRecord 65519) = .ok st ∧
+        st.centralExtraAll 26 26 = .ok x) := by
+  have hz : ∀ st : EntrySt, st.headerStart = 4294967296 → (st.centralZip64 26 26).length = 12 := by
+    intro st h
+    unfold EntrySt.centralZip64
+    rw [h]
+    decide
+  constructor
+  · obtain ⟨st, hst⟩ := (extra_placement_ok_iff 4294967296 1 false .centralOnly [] (bigRecord 65520) (by decide)).mpr
+      ⟨(validateExtraData_ok_iff false _).mp (validate_nil false),
+       Or.inr ((validateExtraData_ok_iff false _).mp (bigRecord_valid 65520 (by omega)))⟩
+    obtain ⟨h1, _, h3, _⟩ := extra_placement_central_part hst
+    refine ⟨st, hst, central_extra_all_err ?_⟩
+    rw [hz st h1, h3, centralPart, if_neg (by decide), bigRecord_length]
+    omega
+  · obtain ⟨st, hst⟩ := (extra_placement_ok_iff 4294967296 1 false .centralOnly [] (bigRecord 65519) (by decide)).mpr
+      ⟨(validateExtraData_ok_iff false _).mp (validate_nil false),
+       Or.inr ((validateExtraData_ok_iff false _).mp (bigRecord_valid 65519 (by omega)))⟩
+    obtain ⟨h1, _, h3, _⟩ := extra_placement_central_part hst
+    obtain ⟨x, hx⟩ := (central_extra_all_ok_iff st 26 26).mpr (by
+      rw [hz st h1, h3, centralPart, if_neg (by decide), bigRecord_length]
+      omega)
+    exact ⟨st, x, hst, hx⟩
+
+/-! ## 7. The writer after a refusal (finding B6)
+
+"Truncated records, the ZIP64 header ID and reserved header IDs are rejected with an error" — they are
+(`validate_rejects_malformed`).  What the property text does not say, and the crate does: the refusal
+leaves the writer in extra-field mode with the rejected bytes still in `extra_field`.  Every later
+`start_*` and `finish` runs the same validation first and returns the SAME error with the state unchanged —
+for ever —, nothing more reaches the sink (the entries written before are never given a central directory),
+and a later `write` reports success and appends to the rejected extra field.  Stated over the full writer
+state machine of `Model/Writer.lean` (the one tied to the source by `Tie.WriterSM` / the `write` stream). -/
+
+/-- A refusal by `end_extra_data` because of the data (not because the writer is closed or not in
+extra-field mode) IS the wedged state: the call returns the validation error and changes nothing. -/
+theorem refused_extra_data_wedges (ext : Model.WExt) {s : Model.WState} {e : ZErr} (h : Model.Wedged s e) :
+    Model.endExtraData ext s = pure (.error e, s) ∧
+    Model.endLocalStartCentral ext s = pure (.error e, s) :=
+  ⟨Model.endExtraData_wedged ext h, Model.endLocalStartCentral_wedged ext h⟩
+
+/-- The refusal the C17 theorems speak about (`Model.Align.validateExtraData … = .err e`) is the one of
+the writer model (bridge `Lemmas.ExtraBridge.validate_bridge`). -/
+theorem wedged_of_refusal {s : Model.WState} {file : Model.FileData} {e : ZErr}
+    (hx : s.writingToExtraField = true) (hc : s.inner.isClosed = false)
+    (hl : s.files.getLast? = some file)
+    (hv : validateExtraData file.largeFile file.extraField = .err e) : Model.Wedged s e := by
+  refine ⟨hx, hc, file, hl, ?_⟩
+  rw [Lemmas.ExtraBridge.validate_bridge] at hv
+  cases hw : Model.validateExtraData file with
+  | ok u => rw [hw] at hv; cases hv
+  | error e' => rw [hw] at hv; injection hv with hv; rw [hv]
+
+/-- **Every later `start_*` and `finish` fails with the same error and leaves the writer as it was** —
+hence still wedged, so this holds for every later call as well. -/
+theorem wedged_forever (ext : Model.WExt) {s : Model.WState} {e : ZErr} (h : Model.Wedged s e)
+    (name : Bytes) (o : Model.FileOptions) (al : UInt16) (hn : name.length ≤ 65535)
+    (hc : s.comment.length ≤ 65535) :
+    Model.startFile ext name o s = pure (.error e, s) ∧
+    Model.startFileWithExtraData ext name o s = pure (.error e, s) ∧
+    Model.startFileAligned ext name o al s = pure (.error e, s) ∧
+    Model.finish ext s = pure (.error e, s) :=
+  ⟨Model.startFile_wedged ext name o h hn, Model.startFileWithExtraData_wedged ext name o h hn,
+   Model.startFileAligned_wedged ext name o al h hn, Model.finish_wedged ext h hc⟩
+
+/-- **A later `write` goes into the rejected extra field** (and reports success): the only way on is to
+complete the data into something valid — impossible once a reserved or ZIP64 ID has been written. -/
+theorem wedged_write_lands_in_extra_field (buf : Bytes) {s : Model.WState} {e : ZErr} (h : Model.Wedged s e)
+    (hb : buf.isEmpty = false) (hw : s.writingToFile = true) :
+    ∃ f, s.files.getLast? = some f ∧
+      Model.writeData buf s =
+        pure (.ok (), { s with files := Model.setLast s.files { f with extraField := f.extraField ++ buf } }) :=
+  Model.writeData_wedged buf h hb hw
+
+-- a wedged writer: one open entry whose extra field is a ZIP64 record
+example : Model.Wedged
+    { Model.WState.init with
+        files := [{ (default : Model.FileData) with extraField := [0x01, 0x00, 0x00, 0x00] }],
+        writingToFile := true, writingToExtraField := true } (.io .other) :=
+  ⟨rfl, rfl, _, rfl, rfl⟩
 
 end ZipVerif.Props.C17
